@@ -18,6 +18,7 @@ fn main() {
     }
     let what = args[1].as_str();
     let tier = args.get(2).map(|s| s.as_str()).unwrap_or("quick");
+    util::process_t0();
     util::start_stall_monitor();
     // scratch dir for this process is removed on exit
     let code = props::run(what, tier, &args[2.min(args.len())..]);
